@@ -33,10 +33,18 @@ def run(ctx):
     ctx.floor('C08.declares_checked', 1000)
     saved = ctx.deadline
     sub = {'quick': 11, 'thorough': 100}[ctx.tier]
-    for drv in (w_alg.drive_composite, w_alg.drive_embed, w_alg.drive_merge, w_alg.drive_mask,
-                w_alg.drive_forwards, w_alg.drive_partial_retrieval):
-        ctx.deadline = ctx.clock() + sub
-        drv(ctx, ctx.tier)
+    # every driver twice: bare parameter lists, and parameter lists with defaults and annotations (eager and
+    # postponed; signatures of functions, classes, callable instances) -- metadata decides which of two paired
+    # parameters the result is built from, and with it whose name the provenance entry is filed under
+    mpool = w_alg.MetaPool(ctx.rng('meta'), anns=('1', '2'), p_ann=0.4)
+    fpool = w_alg.MetaPool(ctx.rng('meta-future'), anns=('T', 'U'), p_ann=0.4, future=True, globs={'T': int, 'U': str})
+    for drv, kw in ((w_alg.drive_composite, {}), (w_alg.drive_embed, {}), (w_alg.drive_merge, {}), (w_alg.drive_mask, {}),
+                    (w_alg.drive_forwards, {}), (w_alg.drive_partial_retrieval, {}),
+                    (w_alg.drive_merge, dict(pool=mpool)), (w_alg.drive_embed, dict(pool=fpool)),
+                    (w_alg.drive_forwards, dict(pool=mpool)), (w_alg.drive_composite, dict(pool=fpool)),
+                    (w_alg.drive_mask, dict(pool=mpool))):
+        ctx.deadline = ctx.clock() + (sub if not kw else sub / 2.0)
+        drv(ctx, ctx.tier, **kw)
     ctx.deadline = saved
     from .. import w_misc
     w_misc.drive_retrieval_clients(ctx, ctx.tier)
